@@ -139,3 +139,38 @@ func VH_C03_Impostor() {
 	vAssert(hs.s2c.written == 0, "responder emitted handshake bytes (auth payload released) to an initiator that does not hold the paired key")
 	vAssert(vNoKeys(hs.srv), "responder derived traffic keys with an initiator that does not hold the paired key")
 }
+
+// VH_C03_Retry: the passphrase check does not wear out. One process sees
+// several handshake attempts (the listener accepts again after a failed
+// attempt; a client retries): `attempts` successive first-time handshakes
+// between freshly built Machines with the same two arbitrary, different
+// passphrase entropies. Every attempt - not only the first - is rejected by
+// the responder before it has written a byte, and nobody gets keys or auth
+// data. (State that survives an attempt - caches, scrubbed or shared buffers -
+// must not weaken the next one.) A final attempt with the client now using the
+// server's passphrase completes.
+func VH_C03_Retry() {
+	pwC, pwS := vBytes("pw_c", 14), vBytes("pw_s", 14)
+	vAssume(!vBytesEq(pwC, pwS))
+	auth := vBytes("auth", 7)
+	attempts := vParam("attempts", 2)
+	for i := 0; i < attempts; i++ {
+		cfg := &vHSConfig{cMin: 0, cMax: 2, sMin: 0, sMax: 2, auth: auth}
+		cfg.cliPW, cfg.srvPW = pwC, pwS
+		hs, ok := vSetup(cfg)
+		vAssert(ok, "machine construction failed")
+		vRunHandshake(hs)
+		vReach("retry-mismatch")
+		vAssert(hs.srv.err != nil, "responder completed a handshake with a peer that does not know the passphrase (not on the first attempt)")
+		vAssert(hs.s2c.written == 0, "responder emitted handshake bytes (auth payload released) before the passphrase was verified (not on the first attempt)")
+		vAssert(hs.cli.err != nil && vNoKeys(hs.cli) && vNoKeys(hs.srv), "a party completed or derived traffic keys although the passphrases differ")
+		vAssert(hs.cli.authCalls == 0 && hs.cli.m.receivedPayload == nil, "initiator obtained auth data without the passphrase")
+	}
+	cfg := &vHSConfig{cMin: 0, cMax: 2, sMin: 0, sMax: 2, auth: auth}
+	cfg.cliPW, cfg.srvPW = pwS, pwS
+	hs, ok := vSetup(cfg)
+	vAssert(ok, "machine construction failed")
+	vRunHandshake(hs)
+	vReach("retry-match")
+	vAssert(hs.cli.err == nil && hs.srv.err == nil, "handshake with equal passphrases failed after rejected attempts")
+}
